@@ -33,7 +33,7 @@ from simkit.world import digest
 ID = "C28"
 LEVEL = "exploration"
 ENGINE = "simkit/proxy-world"
-QUICK_RUNS = 8000
+QUICK_RUNS = 16000
 QUICK_BUDGET_S = 120
 THOROUGH_BUDGET_S = 900
 CHUNK = 100
@@ -353,6 +353,13 @@ def oracle(sc, obs):
             if k >= len(sent) or fsight is None or (fsight[0], fsight[2]) != (sent[k]["kind"], sent[k]["data"]):
                 what = "nothing" if k >= len(sent) else f"({sent[k]['kind']}, {_short(sent[k]['data'])})"
                 seen = (fsight[0], _short(fsight[2])) if fsight else None
+                if k < len(sent) and fsight is not None and len(fsight[2]) < len(sent[k]["data"]) and \
+                        sent[k]["data"].endswith(fsight[2]) and any(
+                            x[4] == "ok" and x[1] == (src == "server") and
+                            sent[k]["t0"] <= x[0] <= (sent[k]["t1"] or x[0]) + 0.001 for x in obs.injected):
+                    return [_V("injection_merged_with_partial_message", {},
+                               f"{d}: a message was injected while the {src}'s message #{k} {what} was only partly received: "
+                               f"the head of that message went into the injected one, addons saw only the tail {seen}")], probes
                 v.append(_V("record_mismatch", {"kind": fsight[0] if fsight else None, "deflate": obs.deflate,
                                                 "control_frame_inside_fragmented_message":
                                                     bool(k < len(sent) and sent[k].get("ping_inside"))},
